@@ -284,6 +284,7 @@ type val struct {
 	typ    *gtype         // nil: untyped constant or bool
 	c      constant.Value // compile-time constant (integer valued)
 	isBool bool
+	idxOf  string // the value is a bounds-checked index into this receiver slice field (a translated `&recv.field[i]`)
 }
 
 func intLit(c constant.Value) string {
@@ -338,6 +339,7 @@ type irBind struct {
 	body       ir
 }
 type irPanic struct{}
+type irReject struct{} // the Go function returned a non-nil error
 type irRet struct {
 	writes []string
 	outs   []string
@@ -349,7 +351,7 @@ func irImpure(x ir) bool {
 		return irImpure(n.body)
 	case irIf:
 		return irImpure(n.then) || irImpure(n.els)
-	case irGuard, irBind, irPanic:
+	case irGuard, irBind, irPanic, irReject:
 		return true
 	}
 	return false
@@ -372,17 +374,19 @@ func irSize(x ir) int {
 // ---------------------------------------------------------------- per-function translation
 
 type recvParam struct {
-	field string
-	kind  string // "field", "len", "func"
-	lean  string
-	typ   *gtype
-	note  string
+	field  string
+	kind   string // "field", "len", "func"
+	lean   string
+	typ    *gtype
+	isBool bool // a bool field: Lean type Bool
+	note   string
 }
 
 type declParam struct {
 	goName string
 	lean   string
-	typ    *gtype // nil: slice/string (the parameter is its length)
+	typ    *gtype // nil: slice/string (the parameter is its length), or bool
+	isBool bool
 	note   string
 }
 
@@ -396,6 +400,10 @@ type fnSig struct {
 	written       []string // receiver fields assigned (sorted)
 	hasStores     bool
 	result        *gtype
+	resultBool    bool     // the function returns bool (Lean: Bool)
+	resultIndex   string   // the function returns &recv.<field>[i]: the value is the (bounds-checked) index i
+	resultStruct  string   // the function returns (S, error): S a struct of this package with integer fields only
+	resultFields  []string // its fields, alphabetical
 	impure        bool
 	body          ir
 	file          string
@@ -409,10 +417,11 @@ type pend struct {
 }
 
 type gvar struct {
-	lean  string
-	typ   *gtype
-	slice bool // []byte / string: only len() and (for []byte) stores
-	bytes bool
+	lean   string
+	typ    *gtype
+	slice  bool // []byte / string: only len() and (for []byte) stores
+	bytes  bool
+	isBool bool
 }
 
 type env struct {
@@ -429,22 +438,27 @@ func (e *env) copy() *env {
 }
 
 type fnTrans struct {
-	c          *pkgCtx
-	fd         *ast.FuncDecl
-	key        string
-	recvVar    string
-	recvType   string
-	recvPtr    bool
-	fields     map[string]ast.Expr
-	recvUse    map[string]recvParam // key kind+":"+field
-	written    map[string]bool
-	extConsts  map[string]bool
-	extFuncs   map[string]bool
-	pending    []pend
-	nfresh     int
-	storeParam string
-	result     *gtype
-	leanNames  map[string]bool
+	c            *pkgCtx
+	fd           *ast.FuncDecl
+	key          string
+	recvVar      string
+	recvType     string
+	recvPtr      bool
+	fields       map[string]ast.Expr
+	recvUse      map[string]recvParam // key kind+":"+field
+	written      map[string]bool
+	extConsts    map[string]bool
+	extFuncs     map[string]bool
+	pending      []pend
+	nfresh       int
+	storeParam   string
+	result       *gtype
+	resultBool   bool
+	resultIndex  string
+	resultStruct string
+	resultFields []string
+	resultFTypes map[string]*gtype
+	leanNames    map[string]bool
 }
 
 var leanReserved = map[string]bool{"at": true, "end": true, "from": true, "fun": true, "do": true, "then": true, "open": true,
@@ -518,6 +532,12 @@ func (c *pkgCtx) translate(key string) *fnSig {
 			t.recvPtr = true
 			rt = st.X
 		}
+		switch g := rt.(type) { // generic receiver RingBuffer[T]: the type arguments play no role in integer code
+		case *ast.IndexExpr:
+			rt = g.X
+		case *ast.IndexListExpr:
+			rt = g.X
+		}
 		id, ok := rt.(*ast.Ident)
 		if !ok {
 			fail("receiver type is not a plain named type")
@@ -571,6 +591,12 @@ func (c *pkgCtx) translate(key string) *fnSig {
 				sig.params = append(sig.params, declParam{goName: n.Name, lean: ln, typ: g, note: g.desc()})
 				continue
 			}
+			if id, ok := f.Type.(*ast.Ident); ok && id.Name == "bool" && n.Name != "_" {
+				ln := t.leanIdent(n.Name)
+				en.vars[n.Name] = &gvar{lean: ln, isBool: true}
+				sig.params = append(sig.params, declParam{goName: n.Name, lean: ln, isBool: true, note: "bool"})
+				continue
+			}
 			isBytes, isStr := false, false
 			if at, ok := f.Type.(*ast.ArrayType); ok && at.Len == nil {
 				if id, ok := at.Elt.(*ast.Ident); ok && (id.Name == "byte" || id.Name == "uint8") {
@@ -595,15 +621,51 @@ func (c *pkgCtx) translate(key string) *fnSig {
 	}
 	// result
 	if r := fd.Type.Results; r != nil && len(r.List) > 0 {
-		if len(r.List) != 1 || len(r.List[0].Names) > 1 {
+		if len(r.List) == 2 && len(r.List[0].Names) == 0 && len(r.List[1].Names) == 0 {
+			// (S, error) with S a struct of this package whose fields are all integers: `Res (fields…)`,
+			// `Res.reject` when the error is non-nil (the struct value returned beside an error is not reported)
+			sid, ok1 := r.List[0].Type.(*ast.Ident)
+			eid, ok2 := r.List[1].Type.(*ast.Ident)
+			if ok1 && ok2 && eid.Name == "error" {
+				if st, ok := c.types[sid.Name].(*ast.StructType); ok {
+					t.resultStruct = sid.Name
+					t.resultFTypes = map[string]*gtype{}
+					for _, f := range st.Fields.List {
+						g := c.resolveType(f.Type, 0)
+						if g == nil || len(f.Names) == 0 {
+							fail("result struct %s has a non-integer or embedded field", sid.Name)
+						}
+						for _, n := range f.Names {
+							t.resultFields = append(t.resultFields, n.Name)
+							t.resultFTypes[n.Name] = g
+						}
+					}
+					sort.Strings(t.resultFields)
+				}
+			}
+		}
+		if t.resultStruct != "" {
+			// handled in ReturnStmt
+		} else if len(r.List) != 1 || len(r.List[0].Names) > 1 {
 			fail("more than one result")
 		}
 		if len(r.List[0].Names) == 1 {
 			fail("named result")
 		}
-		t.result = c.resolveType(r.List[0].Type, 0)
-		if t.result == nil {
-			fail("result type is not an integer type")
+		if t.resultStruct == "" {
+			t.result = c.resolveType(r.List[0].Type, 0)
+		}
+		if t.resultStruct != "" {
+			// nothing more to resolve
+		} else if id, ok := r.List[0].Type.(*ast.Ident); ok && id.Name == "bool" && t.result == nil {
+			t.resultBool = true
+		} else if _, ok := r.List[0].Type.(*ast.StarExpr); ok && t.result == nil {
+			// a pointer result is accepted only as `&recv.field[i]` (see ReturnStmt): the value is the index
+			it := basicTypes["int"]
+			t.result = &it
+			t.resultIndex = "?"
+		} else if t.result == nil {
+			fail("result type is not an integer type, bool or a pointer to an element of a receiver slice")
 		}
 	}
 	body := t.stmts(fd.Body.List, en)
@@ -611,8 +673,14 @@ func (c *pkgCtx) translate(key string) *fnSig {
 		fail("translation too large (%d nodes): too many branches are duplicated", n)
 	}
 	sig.body = body
-	sig.impure = irImpure(body)
+	sig.impure = irImpure(body) || t.resultStruct != ""
+	sig.resultStruct, sig.resultFields = t.resultStruct, t.resultFields
 	sig.result = t.result
+	sig.resultBool = t.resultBool
+	sig.resultIndex = t.resultIndex
+	if sig.resultIndex == "?" {
+		fail("pointer result that is never `&recv.field[i]`")
+	}
 	sig.hasStores = t.storeParam != ""
 	for _, rp := range t.recvUse {
 		sig.recvParams = append(sig.recvParams, rp)
@@ -691,14 +759,33 @@ func (t *fnTrans) useRecv(kind, field string) recvParam {
 		return rp
 	}
 	ft, ok := t.fields[field]
+	if outer, sub, nested := strings.Cut(field, "."); nested {
+		// recv.Outer.Sub with Outer a field whose type is a struct of this package
+		ok = false
+		if oid, isId := t.fields[outer].(*ast.Ident); isId {
+			if st, isSt := t.c.types[oid.Name].(*ast.StructType); isSt {
+				for _, f := range st.Fields.List {
+					for _, n := range f.Names {
+						if n.Name == sub {
+							ft, ok = f.Type, true
+						}
+					}
+				}
+			}
+		}
+	}
 	if !ok {
 		fail("receiver has no field %s (embedded fields and methods values are outside the subset)", field)
 	}
 	rp := recvParam{field: field, kind: kind}
-	base := t.leanIdent(t.recvVar) + "_" + field
+	base := t.leanIdent(t.recvVar) + "_" + strings.ReplaceAll(field, ".", "_")
 	switch kind {
 	case "field":
 		g := t.c.resolveType(ft, 0)
+		if id, ok := ft.(*ast.Ident); ok && id.Name == "bool" && g == nil {
+			rp.lean, rp.isBool, rp.note = base, true, "field, bool"
+			break
+		}
 		if g == nil {
 			fail("receiver field %s is not of integer type", field)
 		}
@@ -764,6 +851,9 @@ func (t *fnTrans) intExpr(e ast.Expr, en *env) val {
 	v := t.expr(e, en)
 	if v.isBool {
 		fail("boolean value where an integer is needed")
+	}
+	if v.idxOf != "" {
+		fail("pointer to a slice element used as a value")
 	}
 	return v
 }
@@ -844,7 +934,16 @@ func (t *fnTrans) expr(e ast.Expr, en *env) val {
 			if v.slice {
 				fail("slice/string %s used as a value", x.Name)
 			}
+			if v.isBool {
+				return val{lean: "(" + v.lean + " = true)", isBool: true}
+			}
 			return val{lean: v.lean, typ: v.typ}
+		}
+		if x.Name == "true" {
+			return val{lean: "True", isBool: true}
+		}
+		if x.Name == "false" {
+			return val{lean: "False", isBool: true}
 		}
 		if t.isRecvName(x.Name) {
 			fail("receiver used as a value")
@@ -856,6 +955,16 @@ func (t *fnTrans) expr(e ast.Expr, en *env) val {
 	case *ast.SelectorExpr:
 		if t.isRecv(x.X) {
 			rp := t.useRecv("field", x.Sel.Name)
+			if rp.isBool {
+				return val{lean: "(" + rp.lean + " = true)", isBool: true}
+			}
+			return val{lean: rp.lean, typ: rp.typ}
+		}
+		if in, ok := x.X.(*ast.SelectorExpr); ok && t.isRecv(in.X) {
+			rp := t.useRecv("field", in.Sel.Name+"."+x.Sel.Name)
+			if rp.isBool {
+				return val{lean: "(" + rp.lean + " = true)", isBool: true}
+			}
 			return val{lean: rp.lean, typ: rp.typ}
 		}
 		if k, ok := selKey(x); ok && t.isImportAlias(strings.SplitN(k, ".", 2)[0], en) {
@@ -1128,8 +1237,8 @@ func (t *fnTrans) localCall(key string, onRecv bool, args []ast.Expr, en *env) v
 	if len(cs.written) > 0 || cs.hasStores {
 		fail("call of %s, which assigns receiver fields or stores into a slice, inside an expression", key)
 	}
-	if cs.result == nil {
-		fail("call of %s, which returns nothing, inside an expression", key)
+	if cs.result == nil && !cs.resultBool {
+		fail("call of %s, which returns nothing or a struct, inside an expression", key)
 	}
 	if len(cs.recvParams) > 0 && (!onRecv || cs.recvType != t.recvType) {
 		fail("call of method %s on something other than the caller's own receiver", key)
@@ -1143,6 +1252,10 @@ func (t *fnTrans) localCall(key string, onRecv bool, args []ast.Expr, en *env) v
 	}
 	for i, a := range args {
 		p := cs.params[i]
+		if p.isBool {
+			parts = append(parts, "(decide "+t.boolExpr(a, en)+")")
+			continue
+		}
 		if p.typ == nil {
 			// slice/string parameter: pass the length of a slice-typed local/parameter
 			id, ok := a.(*ast.Ident)
@@ -1172,9 +1285,15 @@ func (t *fnTrans) localCall(key string, onRecv bool, args []ast.Expr, en *env) v
 	if cs.impure {
 		n := t.fresh("r_")
 		t.pending = append(t.pending, pend{name: n, call: call})
-		return val{lean: n, typ: cs.result}
+		if cs.resultBool {
+			return val{lean: "(" + n + " = true)", isBool: true}
+		}
+		return val{lean: n, typ: cs.result, idxOf: cs.resultIndex}
 	}
-	return val{lean: call, typ: cs.result}
+	if cs.resultBool {
+		return val{lean: "(" + call + " = true)", isBool: true}
+	}
+	return val{lean: call, typ: cs.result, idxOf: cs.resultIndex}
 }
 
 func (t *fnTrans) call(x *ast.CallExpr, en *env) val {
@@ -1306,6 +1425,9 @@ func (t *fnTrans) assignTarget(lhs ast.Expr, en *env) (kind string, name string,
 				fail("assignment to a field of a value receiver (lost on return)")
 			}
 			rp := t.useRecv("field", l.Sel.Name)
+			if rp.isBool {
+				fail("assignment to the bool field %s", l.Sel.Name)
+			}
 			return "field", l.Sel.Name, rp.typ, nil
 		}
 	case *ast.IndexExpr:
@@ -1330,7 +1452,7 @@ var assignOps = map[token.Token]token.Token{token.ADD_ASSIGN: token.ADD, token.S
 
 func (t *fnTrans) stmts(list []ast.Stmt, en *env) ir {
 	if len(list) == 0 {
-		if t.result != nil {
+		if t.result != nil || t.resultBool || t.resultStruct != "" {
 			fail("control reaches the end of a function that returns a value")
 		}
 		return t.finish(en, nil)
@@ -1343,7 +1465,10 @@ func (t *fnTrans) stmts(list []ast.Stmt, en *env) ir {
 	case *ast.BlockStmt:
 		return t.stmts(append(append([]ast.Stmt(nil), x.List...), rest...), en)
 	case *ast.ReturnStmt:
-		if t.result == nil {
+		if t.resultStruct != "" {
+			return t.returnStruct(x, en, mark)
+		}
+		if t.result == nil && !t.resultBool {
 			if len(x.Results) != 0 {
 				fail("return with a value in a function without result")
 			}
@@ -1351,6 +1476,15 @@ func (t *fnTrans) stmts(list []ast.Stmt, en *env) ir {
 		}
 		if len(x.Results) != 1 {
 			fail("return arity")
+		}
+		if t.resultBool {
+			p := t.boolExpr(x.Results[0], en)
+			ps := t.take(mark)
+			v := val{lean: "(decide " + p + ")"}
+			return wrapPend(ps, t.finish(en, &v))
+		}
+		if t.resultIndex != "" {
+			return t.returnIndex(x.Results[0], en, mark)
 		}
 		v := t.intExpr(x.Results[0], en)
 		if v.typ != nil && (v.typ.bits != t.result.bits || v.typ.signed != t.result.signed) {
@@ -1469,6 +1603,108 @@ func (t *fnTrans) stmts(list []ast.Stmt, en *env) ir {
 		}
 	}
 	fail("statement of kind %T is outside the subset", s)
+	return nil
+}
+
+// returnStruct: `return S{F: e, …}, nil` / `return recv, nil` / `return <anything>, errors.New(…)|fmt.Errorf(…)`
+func (t *fnTrans) returnStruct(x *ast.ReturnStmt, en *env, mark int) ir {
+	if len(x.Results) != 2 {
+		fail("return arity")
+	}
+	switch e := x.Results[1].(type) {
+	case *ast.Ident:
+		if e.Name != "nil" || en.vars["nil"] != nil {
+			fail("error result that is neither nil nor errors.New / fmt.Errorf")
+		}
+	case *ast.CallExpr:
+		k, ok := selKey(e.Fun)
+		if !ok || (k != "errors.New" && k != "fmt.Errorf") || !t.isImportAlias(strings.SplitN(k, ".", 2)[0], en) {
+			fail("error result that is neither nil nor errors.New / fmt.Errorf")
+		}
+		return irReject{} // errors.New / fmt.Errorf never return nil; their arguments are not evaluated here
+	default:
+		fail("error result that is neither nil nor errors.New / fmt.Errorf")
+	}
+	vals := map[string]string{}
+	switch v := x.Results[0].(type) {
+	case *ast.CompositeLit:
+		id, ok := v.Type.(*ast.Ident)
+		if !ok || id.Name != t.resultStruct {
+			fail("composite literal of another type")
+		}
+		for _, f := range t.resultFields {
+			vals[f] = "0"
+		}
+		for _, el := range v.Elts {
+			kv, ok := el.(*ast.KeyValueExpr)
+			if !ok {
+				fail("composite literal without field names")
+			}
+			kid, ok := kv.Key.(*ast.Ident)
+			if !ok || t.resultFTypes[kid.Name] == nil {
+				fail("composite literal key")
+			}
+			vals[kid.Name] = t.coerce(t.intExpr(kv.Value, en), t.resultFTypes[kid.Name], "field "+kid.Name).lean
+		}
+	case *ast.Ident:
+		if !t.isRecv(v) || t.recvType != t.resultStruct {
+			fail("struct result that is neither a composite literal nor the receiver")
+		}
+		for _, f := range t.resultFields {
+			vals[f] = t.useRecv("field", f).lean
+		}
+	default:
+		fail("struct result that is neither a composite literal nor the receiver")
+	}
+	ps := t.take(mark)
+	r := irRet{writes: append([]string(nil), en.writes...)}
+	for _, f := range t.resultFields {
+		r.outs = append(r.outs, vals[f])
+	}
+	return wrapPend(ps, r)
+}
+
+// returnIndex: `return &recv.field[i]` (value: the index i, after Go's bounds check against len(recv.field)),
+// or `return recv.M(...)` where M returns such a pointer into the same field
+func (t *fnTrans) returnIndex(e ast.Expr, en *env, mark int) ir {
+	setField := func(f string) {
+		if t.resultIndex != "?" && t.resultIndex != f {
+			fail("pointer results into different fields (%s, %s)", t.resultIndex, f)
+		}
+		t.resultIndex = f
+	}
+	if u, ok := e.(*ast.UnaryExpr); ok && u.Op == token.AND {
+		if ix, ok := u.X.(*ast.IndexExpr); ok {
+			if s, ok := ix.X.(*ast.SelectorExpr); ok && t.isRecv(s.X) {
+				ln := t.useRecv("len", s.Sel.Name)
+				if _, isArr := t.fields[s.Sel.Name].(*ast.ArrayType); !isArr {
+					fail("&recv.%s[i]: not a slice field", s.Sel.Name)
+				}
+				setField(s.Sel.Name)
+				i := t.intExpr(ix.Index, en)
+				if i.typ == nil {
+					it := basicTypes["int"]
+					i = constVal(i.c, &it)
+				}
+				ps := t.take(mark)
+				n := t.fresh("r_")
+				guard := fmt.Sprintf("(0 ≤ %s ∧ %s < %s)", n, n, ln.lean)
+				v := val{lean: n}
+				return wrapPend(ps, irLet{n, i.lean, irGuard{guard, t.finish(en, &v)}})
+			}
+		}
+	}
+	if _, ok := e.(*ast.CallExpr); ok {
+		v := t.expr(e, en)
+		if v.idxOf == "" || v.isBool {
+			fail("pointer result that is not `&recv.field[i]`")
+		}
+		setField(v.idxOf)
+		ps := t.take(mark)
+		v.idxOf = ""
+		return wrapPend(ps, t.finish(en, &v))
+	}
+	fail("pointer result that is not `&recv.field[i]` or a call returning one")
 	return nil
 }
 
@@ -1594,6 +1830,8 @@ func (s *fnSig) print(b *strings.Builder, x ir, ind string) {
 		s.print(b, n.body, ind)
 	case irPanic:
 		fmt.Fprintf(b, "%sRes.panic\n", ind)
+	case irReject:
+		fmt.Fprintf(b, "%sRes.reject\n", ind)
 	case irRet:
 		fmt.Fprintf(b, "%s%s\n", ind, s.retString(n))
 	}
@@ -1608,6 +1846,12 @@ func (s *fnSig) outType() string {
 		parts = append(parts, "Int")
 	}
 	if s.result != nil {
+		parts = append(parts, "Int")
+	}
+	if s.resultBool {
+		parts = append(parts, "Bool")
+	}
+	for range s.resultFields {
 		parts = append(parts, "Int")
 	}
 	ty := "Unit"
@@ -1635,11 +1879,19 @@ func (s *fnSig) emit(b *strings.Builder, c *pkgCtx) {
 	var binders []string
 	for _, p := range s.recvParams {
 		fmt.Fprintf(b, "     %-28s receiver %s.%s: %s\n", p.lean, s.recvType, p.field, p.note)
-		binders = append(binders, fmt.Sprintf("(%s : Int)", p.lean))
+		ty := "Int"
+		if p.isBool {
+			ty = "Bool"
+		}
+		binders = append(binders, fmt.Sprintf("(%s : %s)", p.lean, ty))
 	}
 	for _, p := range s.params {
 		fmt.Fprintf(b, "     %-28s parameter %s: %s\n", p.lean, p.goName, p.note)
-		binders = append(binders, fmt.Sprintf("(%s : Int)", p.lean))
+		ty := "Int"
+		if p.isBool {
+			ty = "Bool"
+		}
+		binders = append(binders, fmt.Sprintf("(%s : %s)", p.lean, ty))
 	}
 	for _, k := range s.extConsts {
 		g := c.typeByName(c.opt.consts[k])
@@ -1659,8 +1911,16 @@ func (s *fnSig) emit(b *strings.Builder, c *pkgCtx) {
 	for _, f := range s.written {
 		outs = append(outs, "final value of field "+f)
 	}
-	if s.result != nil {
+	if s.resultIndex != "" {
+		outs = append(outs, "result `&recv."+s.resultIndex+"[i]`: the index i, bounds-checked against len(recv."+s.resultIndex+")")
+	} else if s.result != nil {
 		outs = append(outs, "result, "+s.result.desc())
+	}
+	if s.resultBool {
+		outs = append(outs, "result, bool")
+	}
+	if s.resultStruct != "" {
+		outs = append(outs, "result ("+s.resultStruct+", error): the fields "+strings.Join(s.resultFields, ", ")+" (alphabetical) when the error is nil, `Res.reject` when it is not")
 	}
 	if len(outs) == 0 {
 		outs = []string{"nothing"}
